@@ -517,7 +517,8 @@ Fixpoint sub_phases (self : pkg) (phases : list phase) (rows : list vec) (opkg :
   match ops, ors with
   | p :: pt, r :: rt =>
     if skip_empty && negb (row_any r) then sub_phases self phases rows opkg pt rt skip_empty
-    else do i <- phase_index p phases;
+    else do _ <- (if same_pkg self opkg then Ok [] else overlap self opkg (nz_keys r));   (* chemicals.indices first *)
+         do i <- phase_index p phases;
          do r' <- sub_row self (nth i rows []) opkg r;
          sub_phases self phases (upd rows i r') opkg pt rt skip_empty
   | _, _ => Ok rows
